@@ -15,6 +15,7 @@ type frameInfo struct {
 	assigns map[*ssa.Global]bool // written by a Store (as opposed to updated through a map held in it)
 	heap    bool // stores through pointers that are not rooted at a global or a local cell
 	dynamic bool // calls through function values / interface methods of /repo types
+	fs      bool // writes files (ioutil.WriteFile / os.WriteFile), directly or through callees
 	done    bool
 }
 
@@ -155,6 +156,9 @@ func (w *World) frameOf(fn *ssa.Function) *frameInfo {
 					continue
 				}
 				if cal := c.StaticCallee(); cal != nil {
+					if n := cal.String(); n == "io/ioutil.WriteFile" || n == "os.WriteFile" {
+						fi.fs = true
+					}
 					callees = append(callees, cal)
 				} else if mc, ok := c.Value.(*ssa.MakeClosure); ok {
 					callees = append(callees, mc.Fn.(*ssa.Function))
@@ -210,6 +214,9 @@ func (w *World) frameOf(fn *ssa.Function) *frameInfo {
 		}
 		if ci.dynamic {
 			fi.dynamic = true
+		}
+		if ci.fs {
+			fi.fs = true
 		}
 	}
 	fi.done = true
